@@ -25,7 +25,7 @@ import steps_gen as G
 from common import Infra
 
 PROP = "C03"
-CLAIMED = False
+CLAIMED = True
 ENGINE = "Steps"
 DESIGN_REF = "DESIGN.md §5.3"
 TECHNIQUE = (
